@@ -143,6 +143,23 @@ func runCase(c Case) (out Out) {
 			out.Obs = append(out.Obs, call(num(op[1]), false, len(op) > 2))
 		case "rel":
 			out.Obs = append(out.Obs, call(num(op[1]), true, len(op) > 2))
+		case "par": // ["par", "acq"|"rel", [i, j, ...]]: the listed instances call concurrently
+			rel := op[1].(string) == "rel"
+			list := op[2].([]any)
+			res := make([][]bool, len(list))
+			var wg sync.WaitGroup
+			start := make(chan struct{})
+			for n, v := range list {
+				wg.Add(1)
+				go func(n int, i int64) {
+					defer wg.Done()
+					<-start
+					res[n] = call(i, rel, false)
+				}(n, num(v))
+			}
+			close(start)
+			wg.Wait()
+			out.Obs = append(out.Obs, res)
 		case "fault": // ["fault", i, "acq"|"rel", kind]
 			kind := op[3].(string)
 			if kind == "err" {
